@@ -224,6 +224,9 @@ def shard(ctx):
 
     prof = StreamProfile(knobs_fn=knobs, script_len=ctx.params["script_len"], op_weights=weights(), templates=templ)
     prof.template_prob = 0.3
+    from ..templates import ALL as _ALL
+
+    prof.rotation = [t_sig_calls] + list(_ALL)
     run_stream(ctx, prof, [C19Monitor(ctx, ninputs=ctx.params["ninputs"])])
 
 
